@@ -72,6 +72,15 @@ class ProcessRequest:
     )
 
 
+@contract(f"{A}._process_request", case="from_run")
+class ProcessRequestFromRun(ProcessRequest):
+    """At the arrival of a request (_run) a distribution may only be started for a group with NO registered task:
+    a registered task that has already finished still has its completion callback pending, and that callback would
+    unregister (or overwrite) whatever is registered for the group - a second distribution could then start while
+    this one runs."""
+    requires = dict(nothing_registered_for_group="not (req_id in self._processing_tasks)")
+
+
 @contract(f"{A}._handle_task_completion")
 class HandleTaskCompletion:
     """When a distribution ends (normally or with an exception) the parked request - the latest one - starts at
@@ -116,10 +125,10 @@ class Run:
     starts at once - checked as the precondition of _process_request at its call site."""
     self_shape = RunActorT
     modifies = ["self._processing_tasks", "self._pending_requests", "self._component_manager", "self._requests_receiver"]
+    # a registered task may be in flight or already finished with its completion callback still pending - both occur
+    use = {f"{A}._process_request": f"{A}._process_request#from_run"}
     requires = dict(
         invariant="invariant(self)",
-        registered_tasks_are_in_flight="(not (G1 in self._processing_tasks) or not self._processing_tasks[G1].done())"
-                                       " and (not (G2 in self._processing_tasks) or not self._processing_tasks[G2].done())",
         nothing_parked_yet="not (G1 in self._pending_requests) and not (G2 in self._pending_requests)",
     )
     loops = {
@@ -134,8 +143,6 @@ class Run:
                           "self._component_manager.n_started": Int, "self._component_manager.last_started": Opt(RequestT)},
             invariant=dict(
                 invariant="invariant(self)",
-                registered_tasks_are_in_flight="(not (G1 in self._processing_tasks) or not self._processing_tasks[G1].done())"
-                                               " and (not (G2 in self._processing_tasks) or not self._processing_tasks[G2].done())",
                 parked_is_latest="implies(G1 in self._pending_requests, G1 in last and same_request(self._pending_requests[G1], last[G1]))"
                                  " and implies(G2 in self._pending_requests, G2 in last and same_request(self._pending_requests[G2], last[G2]))",
             ),
